@@ -221,6 +221,7 @@ _REAL = {
 }
 _OUT = {'sha256': 32, 'sha1': 20, 'ripemd160': 20}
 TABLE_BITS = 12
+_table_cache = {}
 
 
 def _free_vars(e, acc):
@@ -268,13 +269,23 @@ def hash_apply(name, data):
     inp = z3.Concat(*parts) if len(parts) > 1 else parts[0]
     # small-domain exact expansion
     if not lia:
+        ck = (name, inp.get_id())
+        hit = _table_cache.get(ck)
+        if hit is not None and hit[0].eq(inp):
+            out = VBytes._mk(list(hit[1]))
+            out.preimage = (name, VBytes._mk(list(d)))
+            return out
         acc = {}
         _free_vars(inp, acc)
         if 'uf' not in acc:
             vs = [v for k, v in acc.items()]
             bits = sum(v.size() for v in vs if z3.is_bv(v))
             if all(z3.is_bv(v) for v in vs) and bits <= TABLE_BITS:
-                return _table_expand(name, d, inp, vs, nout)
+                r = _table_expand(name, d, inp, vs, nout)
+                if len(_table_cache) > 5000:
+                    _table_cache.clear()
+                _table_cache[ck] = (inp, list(r._d))
+                return r
     f = _huf.func(name, len(d), nout)
     oe = f(inp)
     key = (name, len(d))
@@ -284,6 +295,22 @@ def hash_apply(name, data):
         for (ci, co) in st.get('hash_conc', {}).get(key, []):
             cur().add(f(z3.BitVecVal(_rint.from_bytes(ci, 'big'), 8 * len(ci))) ==
                       z3.BitVecVal(_rint.from_bytes(co, 'big'), 8 * nout))
+    if st.get('collision_free'):
+        # stated assumption: the hash has no collisions among the applications that occur on this path
+        apps = st.setdefault('hash_apps', {}).setdefault(name, [])
+        for (n2, inp2, oe2) in apps:
+            if n2 != len(d):
+                cur().add(oe != oe2)
+            elif not inp.eq(inp2):
+                cur().add(z3.Implies(inp != inp2, oe != oe2))
+        for (klen, lst) in [(k[1], v) for k, v in st.get('hash_conc', {}).items() if k[0] == name]:
+            for (ci, co) in lst[-8:]:
+                cv = z3.BitVecVal(_rint.from_bytes(co, 'big'), 8 * nout)
+                if klen != len(d):
+                    cur().add(oe != cv)
+                else:
+                    cur().add(z3.Implies(inp != z3.BitVecVal(_rint.from_bytes(ci, 'big'), 8 * klen), oe != cv))
+        apps.append((len(d), inp, oe))
     items = []
     for i in range(nout):
         hi = 8 * (nout - i) - 1
